@@ -5,6 +5,15 @@ import sys, tempfile, shutil, tomllib, os, re
 sys.path.insert(0, os.path.dirname(os.path.abspath(__file__)))
 import kanirun
 props = tomllib.load(open(os.path.join(kanirun.HERE, 'contracts', 'properties.toml'), 'rb'))
+# test names are used as cargo-test filters (substring match): no name may contain another one
+import glob
+names = []
+for f in glob.glob(os.path.join(kanirun.HERE, 'contracts', 'kani', '*.rs')):
+    names += re.findall(r'fn ((?:finder|exhaustive|replay|demo)_\w+)\(', open(f).read())
+clash = [(a, b) for a in names for b in names if a != b and a in b]
+if clash:
+    print("test-name clash (cargo filter would run both):", clash)
+    sys.exit(1)
 w = tempfile.mkdtemp(prefix='verif-ft-')
 bad = 0
 try:
